@@ -316,8 +316,17 @@ def run_core(ch, env, prop):
 
     d = env.fresh_dir()
     pio = PyramidIO(d, scheme=scheme, default_format=fmt)
+    # one run in three writes its float / integer leaves the way the tiling workflows do: through two locked updates
+    # (upper half, then lower half) instead of one write
+    via_updates = mode in ("F32", "F64", "I16", "I32") and ch.draw(3, kind="leaves_via_updates") == 2
     for p, a in leaves.items():
-        pio.write_image(p, Image.from_array(a.copy()))
+        if via_updates:
+            src = Image.from_array(a.copy())
+            for rows in (slice(0, 100), slice(100, 256)):
+                with pio.update_image(p, masked_mode=src.mode, default="masked") as basis:
+                    src.update_into_maskable_buffer(basis, rows, slice(None), rows, slice(None))
+        else:
+            pio.write_image(p, Image.from_array(a.copy()))
     # stale parents where at least one child tile will exist
     n_stale = 0
     have = set(leaves) | set(ref)
